@@ -5,6 +5,7 @@ package main
 // invocation run with --no-cache on a pristine machine. DESIGN.md §4.
 
 import (
+	"regexp"
 	"encoding/base64"
 	"encoding/hex"
 	"encoding/json"
@@ -172,7 +173,10 @@ var primaryInputs = []string{"/u/part.gb", "/u/part.gb", "/u/pbat.gb", "/u/pbat.
 var locators = []string{"^..$", "1..10", "3", "CDS", "gene", "@^-10..^", "$-20..$", "10..1", "source", "^", "$", "CDS@^..$", "gene/gene=A",
 	"100", "1..100", "@^..^+30", "20..40@^-5..$+5", "misc_feature", "^+5..$-5", "((("}
 var selectors = []string{"CDS", "gene", "CDS/gene=A", "/product", "source", "misc_feature", "/gene", "CDS/product=protein", "rep_origin", "/note"}
-var pickLists = []string{"1", "2-3", "1,3", "-2", "2-", "1-", "2", "5"}
+// pickLists: lists and ranges, several of them spellings that look alike and
+// mean different things (an open end against an end of 0) or the same thing
+// (a repeated or reordered member, a leading zero)
+var pickLists = []string{"1", "2-3", "1,3", "-2", "2-", "1-", "2", "5", "2-0", "0-2", "3-2", "1,1,3", "3,1", "02", "2-2", "0", "0-"}
 var locations = []string{"1..10", "complement(5..20)", "join(1..3,7..9)", "15", "<1..>30", "bogus("}
 var keys = []string{"misc_feature", "gene", "CDS", "promoter"}
 var quals = []string{"note=hello", "gene=x", "note=a b c", "pseudo", "product=some protein", "note=caf\\xe9", "note=caf\\xe8", "gene=\\xff", "gene=\\xc3\\x28"}
@@ -367,7 +371,7 @@ func neighbourOf(r *core.RNG, pool []string, cur string) string {
 			return cur[:len(cur)-1] + string(c+1)
 		}
 	}
-	if cur != "" && r.Chance(1, 4) {
+	if cur != "" && (r.Chance(1, 4) || numList.MatchString(cur) && r.Chance(1, 3)) {
 		if a := aliasOf(r, cur); a != "" && a != cur {
 			return a
 		}
@@ -421,6 +425,37 @@ func aliasOf(r *core.RNG, cur string) string {
 			return esc([]byte(strings.ToValidUTF8(string(raw), "\uFFFD")))
 		}
 	}
+	if numList.MatchString(cur) && r.Chance(2, 3) {
+		// another spelling of a list of numbers and ranges: what a key
+		// takes for the same list and the command for another one, or the
+		// other way round
+		switch r.Intn(6) {
+		case 0:
+			if strings.HasSuffix(cur, "-") {
+				return cur + "0"
+			}
+			return cur + ",0"
+		case 1:
+			if strings.HasPrefix(cur, "-") {
+				return "0" + cur
+			}
+			return "0" + cur
+		case 2:
+			if i := strings.IndexByte(cur, ','); i > 0 {
+				return cur[i+1:] + "," + cur[:i]
+			}
+			return cur + "," + cur
+		case 3:
+			return "+" + cur
+		case 4:
+			if i := strings.IndexByte(cur, '-'); i > 0 && i+1 < len(cur) {
+				return cur[i+1:] + "-" + cur[:i]
+			}
+			return cur + "-" + cur
+		default:
+			return cur + "-"
+		}
+	}
 	switch r.Intn(3) {
 	case 0:
 		if b, err := base64.StdEncoding.DecodeString(cur); err == nil && len(b) > 0 {
@@ -432,6 +467,8 @@ func aliasOf(r *core.RNG, cur string) string {
 	j, _ := json.Marshal(cur)
 	return string(j)
 }
+
+var numList = regexp.MustCompile(`^[0-9][0-9,\-]*$|^-[0-9][0-9,\-]*$`)
 
 // outNames are output names whose extension a command may derive something
 // from (the sequence format today; a delimiter, a layout tomorrow): what is
@@ -1615,7 +1652,10 @@ func c13CliRun(tier string, seed uint64, r *core.RNG) *core.Result {
 		run1.PowerLoss = pl
 	case 2: // corruption between the runs
 		n := len(entry)
-		switch r.Intn(5) {
+		switch r.Intn(6) {
+		case 5:
+			// a directory where the entry was
+			disk = &diskStep{Kind: "dir"}
 		case 0, 1:
 			at := r.Intn(n)
 			if r.Chance(1, 3) {
